@@ -212,3 +212,10 @@ int main() { for (int n : {16, 64, 100}) { arr_real z = zeros(n); arr_real c(n);
     volatile double a = snr(z), b = sinad(c), d = thd(c).value, e = snr(c, 3, true); (void)a; (void)b; (void)d; (void)e; }
   return 0; }
 '''
+
+
+@adapter(r'xcorr\(')
+def xcorr_definition(o):
+    """C07: xcorr against its defining sum, all length pairs 1..20, real and complex"""
+    from contracts import standins
+    return '#include <complex>\n' + standins.XCORR
